@@ -924,6 +924,8 @@ class Translator:
                     out.append(txt)
                 except Untranslatable as e:
                     self.problems.append((f"{modkey}.{fname}", str(e)))
+                except Exception as e:  # noqa: BLE001  (a construct the translator does not even parse: still a broken tie)
+                    self.problems.append((f"{modkey}.{fname}", f"translator error {type(e).__name__}: {e}"))
         return out
 
 
@@ -947,11 +949,13 @@ variable {α : Type} [Scalar α]
 # one generated file per group, so that an edit of one kernel family leaves the obligations of the
 # others untouched:  file -> (module keys, imports)
 GROUPS = {
-    "KCommon": (["Common"], []),
-    "KSolver2": (["F2"], ["KCommon"]),
-    "KSolver3": (["F3"], ["KCommon"]),
-    "KInterp": (["I2", "I3"], ["KCommon"]),
-    "KVInterp": (["V2", "V3"], ["KCommon"]),
+    "KCommon": (["Common"], None, []),
+    "KSweep2": (["F2"], {"t_ana", "t_anad", "delta", "sweep"}, ["KCommon"]),
+    "KSolver2": (["F2"], {"sweep2d", "fteik2d"}, ["KCommon", "KSweep2"]),
+    "KSweep3": (["F3"], {"t_ana", "t_anad", "sweep"}, ["KCommon"]),
+    "KSolver3": (["F3"], {"sweep3d", "fteik3d"}, ["KCommon", "KSweep3"]),
+    "KInterp": (["I2", "I3"], None, ["KCommon"]),
+    "KVInterp": (["V2", "V3"], None, ["KCommon"]),
 }
 
 
@@ -963,8 +967,8 @@ def gen_kernels(write=True):
     tr.run()
     paths = {}
     n = 0
-    for g, (keys, imps) in GROUPS.items():
-        defs = [tr.texts[k] for k in tr.order if k[0] in keys]
+    for g, (keys, names, imps) in GROUPS.items():
+        defs = [tr.texts[k] for k in tr.order if k[0] in keys and (names is None or k[1] in names)]
         n += len(defs)
         imp = "".join(f"import FteikVerif.Generated.{i}\n" for i in imps)
         body = HEADER % imp + "\n".join(defs) + "\nend Fteik.Gen\n"
@@ -981,9 +985,9 @@ def gen_kernels(write=True):
 
 def group_of(kernel):
     """'F2.sweep' -> 'KSolver2'"""
-    k = kernel.split(".")[0]
-    for g, (keys, _) in GROUPS.items():
-        if k in keys:
+    k, f = kernel.split(".")[0], kernel.split(".")[1]
+    for g, (keys, names, _) in GROUPS.items():
+        if k in keys and (names is None or f in names):
             return g
     return None
 
